@@ -13,7 +13,9 @@
 (*        natural), in0, in1 (bar volume in wei)]; endbar(next) chooses the   *)
 (*        next bar's row; a bar's price is the previous bar's close tick.     *)
 (* Events: add / remove / collect / buy / sell (in base/quote terms, as the   *)
-(* API takes them) and endbar (second status refresh, fee accrual, next row). *)
+(* API takes them), update (second status refresh + fee accrual of the bar:   *)
+(* what follows in the bar runs in Strategy.after_bar, after the accrual) and *)
+(* endbar (the update if it has not happened yet, then the next row).         *)
 (***************************************************************************)
 EXTENDS LiqMath, Wallet, FiniteSets
 
@@ -21,7 +23,10 @@ CONSTANTS Ranges,   \* set of <<lo, hi>> tick pairs (multiples of the spacing, l
           Rows      \* sequence of bar rows
 
 CONSTANTS DEV_LastTickOverwrittenByRefresh2,   \* #2  a write in the bar makes the fee path start at this bar's close
-          DEV_ShareWithoutOwnLiquidity         \* mutant: share = own / pool instead of own / (pool + own)
+          DEV_ShareWithoutOwnLiquidity,        \* mutant: share = own / pool instead of own / (pool + own)
+          DEV_LateWriteKeepsLastTick           \* mutation class: a write made AFTER the bar's update (in after_bar) leaves the market's
+                                               \* "written" flag set into the next bar, whose first refresh then does not advance the
+                                               \* start of the fee path (it stays two closes back)
 
 AllAmt == <<2, <<>>, <<1>>>>      \* amount argument None
 AllLiq == <<0 - 1>>               \* liquidity argument None (not a natural)
@@ -85,7 +90,9 @@ EstimateOK(st, r, value, a0, a1, liq) ==
 (* bar 0: the price is that of the row's open tick; the code's fee path of bar 0 starts at its own close (no previous bar) *)
 InitSt(pool, w0, row0) == [pool |-> pool, w |-> w0,
                            pos |-> [r \in Ranges |-> [on |-> FALSE, liq |-> <<>>, p0 |-> Zero, p1 |-> Zero, out |-> FALSE]],
-                           ptick |-> Rows[row0].open, prev |-> Rows[row0].close, row |-> row0, k |-> 0, wrote |-> FALSE, bar |-> 0]
+                           ptick |-> Rows[row0].open, prev |-> Rows[row0].close, row |-> row0, k |-> 0, wrote |-> FALSE, bar |-> 0,
+                           upd |-> FALSE, late |-> FALSE,
+                           lastTick |-> Rows[row0].close]     \* the market's own start of the fee path (= prev unless a DEV switch is on)
 
 Ok(st2, acts, ret) == [st |-> st2, out |-> "ok", acts |-> acts, ret |-> ret]
 Reject(st)         == [st |-> st, out |-> "reject", acts |-> <<>>, ret |-> <<>>]
@@ -101,7 +108,7 @@ Add(st, r, bmax, qmax) ==
       s0   == WSub(st.w[1], used[1])
       s1   == WSub(st.w[2], used[2])
   IN IF ~s0.ok \/ ~s1.ok THEN Reject(st)
-     ELSE LET s2 == [st EXCEPT !.w = <<s0.bal, s1.bal>>, !.pos[r].on = TRUE, !.pos[r].liq = NAdd(@, L), !.wrote = TRUE]
+     ELSE LET s2 == [st EXCEPT !.w = <<s0.bal, s1.bal>>, !.pos[r].on = TRUE, !.pos[r].liq = NAdd(@, L), !.wrote = TRUE, !.late = st.upd]
           IN Ok(s2, <<[type |-> "add", range |-> r, base |-> BaseOf(st, used), quote |-> QuoteOf(st, used), liq |-> L]>>,
                 [base |-> BaseOf(st, used), quote |-> QuoteOf(st, used), liq |-> L])
 
@@ -115,7 +122,7 @@ CollectCore(st, r, m0, m1) ==
       c0 == IF m0 # AllAmt /\ QLt(m0, p.p0) THEN m0 ELSE p.p0
       c1 == IF m1 # AllAmt /\ QLt(m1, p.p1) THEN m1 ELSE p.p1
       s2 == [st EXCEPT !.pos[r].p0 = QSub(@, c0), !.pos[r].p1 = QSub(@, c1), !.w = <<WAdd(st.w[1], c0), WAdd(st.w[2], c1)>>,
-                       !.wrote = TRUE]
+                       !.wrote = TRUE, !.late = st.upd]
   IN [st |-> DropIfDry(s2, r), got |-> <<c0, c1>>]
 Collect(st, r, m0, m1) ==
   IF ~st.pos[r].on \/ (m0 # AllAmt /\ QLt(m0, Zero)) \/ (m1 # AllAmt /\ QLt(m1, Zero)) THEN Reject(st)
@@ -129,7 +136,7 @@ Remove(st, r, liq, collect) ==
   ELSE LET p   == st.pos[r]
            d   == IF liq # AllLiq /\ NCmp(liq, p.liq) < 0 THEN liq ELSE p.liq         \* never more than is held
            got == IF d = <<>> THEN <<Zero, Zero>> ELSE PosAmounts(st, r, d)
-           s1  == [st EXCEPT !.pos[r].liq = NSub(@, d), !.pos[r].p0 = QAdd(@, got[1]), !.pos[r].p1 = QAdd(@, got[2]), !.wrote = TRUE]
+           s1  == [st EXCEPT !.pos[r].liq = NSub(@, d), !.pos[r].p0 = QAdd(@, got[1]), !.pos[r].p1 = QAdd(@, got[2]), !.wrote = TRUE, !.late = st.upd]
            a1  == [type |-> "remove", range |-> r, base |-> BaseOf(st, got), quote |-> QuoteOf(st, got), liq |-> d]
        IN IF ~collect THEN Ok(s1, <<a1>>, [base |-> BaseOf(st, got), quote |-> QuoteOf(st, got)])
           ELSE LET c == CollectCore(s1, r, AllAmt, AllAmt) IN
@@ -182,12 +189,24 @@ FeeOf(st, r, tok, start) ==
       share == QMk(1, st.pos[r].liq, denom)
   IN QMul(QMul(QMul(vol, st.pool.fee), FracCode(start, row.close, r[1], r[2])), share)
 
+BarFees(st) ==
+  LET start == IF DEV_LastTickOverwrittenByRefresh2 /\ st.wrote THEN Row(st).close ELSE st.lastTick IN
+  [r \in Ranges |-> IF st.pos[r].on /\ st.pos[r].liq # <<>>
+                    THEN <<FeeOf(st, r, 0, start), FeeOf(st, r, 1, start)>> ELSE <<Zero, Zero>>]
+Accrue(st, fees) == [st EXCEPT !.pos = [r \in Ranges |-> [st.pos[r] EXCEPT !.p0 = QAdd(@, fees[r][1]), !.p1 = QAdd(@, fees[r][2])]]]
+
+(* the bar's market update, once per bar; operations after it (Strategy.after_bar) see the accrued fees and do not take part in this
+   bar's share any more *)
+Update(st) ==
+  IF st.upd THEN Reject(st)
+  ELSE LET fees == BarFees(st) IN [st |-> [Accrue(st, fees) EXCEPT !.upd = TRUE], out |-> "ok", acts |-> <<>>, ret |-> fees]
+
 EndBar(st, next) ==
-  LET start == IF DEV_LastTickOverwrittenByRefresh2 /\ st.wrote THEN Row(st).close ELSE st.prev
-      fees  == [r \in Ranges |-> IF st.pos[r].on /\ st.pos[r].liq # <<>>
-                                 THEN <<FeeOf(st, r, 0, start), FeeOf(st, r, 1, start)>> ELSE <<Zero, Zero>>]
-      s2    == [st EXCEPT !.pos = [r \in Ranges |-> [st.pos[r] EXCEPT !.p0 = QAdd(@, fees[r][1]), !.p1 = QAdd(@, fees[r][2])]],
-                          !.prev = Row(st).close, !.ptick = Row(st).close, !.row = next, !.wrote = FALSE, !.bar = @ + 1]
+  LET fees  == IF st.upd THEN [r \in Ranges |-> <<Zero, Zero>>] ELSE BarFees(st)
+      s1    == Accrue(st, fees)
+      s2    == [s1 EXCEPT !.prev = Row(st).close,
+                          !.lastTick = IF DEV_LateWriteKeepsLastTick /\ st.late THEN st.lastTick ELSE Row(st).close,
+                          !.ptick = Row(st).close, !.row = next, !.wrote = FALSE, !.bar = @ + 1, !.upd = FALSE, !.late = FALSE]
   IN [st |-> s2, out |-> "ok", acts |-> <<>>, ret |-> fees]
 
 Step(st, ev) ==
@@ -198,13 +217,14 @@ Step(st, ev) ==
              [] ev.op = "sell"    -> Sell(st, ev.a)
              [] ev.op = "lend"    -> Lend(st, ev.r)
              [] ev.op = "unlend"  -> Unlend(st, ev.r)
+             [] ev.op = "update"  -> Update(st)
              [] ev.op = "endbar"  -> EndBar(st, ev.next)
   IN [r EXCEPT !.st.k = st.k + 1]
 
 -----------------------------------------------------------------------------
 (* C08: what a bar's fee must be, stated from the property (not from the code's class test) *)
 Act_C08(st, ev, res) ==
-  ev.op = "endbar" =>
+  ((ev.op = "endbar" \/ ev.op = "update") /\ ~st.upd) =>
     \A r \in Ranges : st.pos[r].on /\ st.pos[r].liq # <<>> =>
       LET row == Row(st)
           f(tok) == QSub(IF tok = 0 THEN res.st.pos[r].p0 ELSE res.st.pos[r].p1, IF tok = 0 THEN st.pos[r].p0 ELSE st.pos[r].p1)
